@@ -39,6 +39,9 @@ def run(prog, rep, tier):
                         field_bounds={"rustybgp_packet::bgp::Ipv4Net": (1, 32), "rustybgp_packet::bgp::Ipv6Net": (1, 128)})
     check_value_invariants(prog, r2)
     check_unknown_arm(prog, r2)
+    if tier == "thorough":
+        r3b = rep.rule("R17.3r", "conversion from API input is panic-free with release (wrapping) arithmetic")
+        check_panic_freedom(prog, r3b, roots, "C17", scope_crates=("rustybgpd", "rustybgp_packet", "rustybgp_table"), profile="release")
     r4 = rep.rule("R17.4", "every attribute attr_to_api can build has an explicit arm in attr_from_api")
     check_arms(prog, r4)
     check_sibling_messages(prog, r4)
@@ -394,7 +397,11 @@ def check_extcom_reader(prog, r):
         used = val is not None and uses.get(val, 0) > 0
         reads.append((b, w, used))
     r.floor("cursor reads in read_extcom", len(reads), 15)
-    brs = branches(fv)
+    rendn = Renderer(fv, depth=10, through_names=True)      # named locals inlined: rules speak about derivations, not names
+    brs = branches(fv, rendn)
+    cursor = fv.local_name.get(1)
+    has_tbit = lambda x: any(isinstance(y, tuple) and y and y[0] == "bin" and y[1] == "BitAnd" and any(z[0] == "const" and z[1] == 0x40 for z in (y[2], y[3]) if isinstance(z, tuple) and z)
+                             for y in walk(x))
     n = 0
     for bi, si, s in fv.aggregates(re.compile(r"rustybgp_api::\w+Extended$")):
         adt = s["rv"].get("adtn") or s["rv"].get("adt")
@@ -405,16 +412,24 @@ def check_extcom_reader(prog, r):
         gs = flat_guards(fv, bi, brs)
         dom_reads = [(b, w, u) for b, w, u in reads if fv.dominates(b, bi)]
         used_bytes = sum(w for b, w, u in dom_reads if u)
-        raw_guard = any(g[0] == "call" and not re.search(r"read_(u|i)\d+$", g[1]) and ({"c", "start"} & set(expr_vars(g))) for g, l, h in gs)
+        def _direct(y):
+            for a in y[2]:
+                while isinstance(a, tuple) and a and a[0] in ("ref", "deref"):
+                    a = a[1]
+                if isinstance(a, tuple) and a and a[0] == "var" and a[1] == cursor:
+                    return True
+            return False
+        # a test that looks at the raw octets: some call other than a read_* takes the cursor itself (get_ref, a helper, ...)
+        raw_guard = any(any(isinstance(y, tuple) and y and y[0] == "call" and not re.search(r"read_(u|i)\d+$", y[1]) and _direct(y) for y in walk(g)) for g, l, h in gs)
         if used_bytes == 8 or raw_guard:
             r.ok("read_extcom: %s accounts for all 8 octets (%s)" % (name, "reads with used results" if used_bytes == 8 else "%d octets read, the rest tested through the raw bytes" % used_bytes))
         else:
             r.fail(prog.name(k), "extcom-octets-dropped:" + name,
                    "%s is built from %d of the 8 octets (reads whose result is used) and nothing on the way tests the remaining ones: any value in them is lost, "
                    "so the community is displayed as something it is not and does not round-trip" % (name, used_bytes), fv.loc(bi))
-        fields = [rend.operand(o, 8) for o in s["rv"]["fields"]]
-        carries = any({"is_transitive", "type_high"} & set(expr_vars(f)) for f in fields)
-        tested = any("is_transitive" in expr_vars(g) for g, l, h in gs)
+        fields = [rendn.operand(o, 10) for o in s["rv"]["fields"]]
+        carries = any(has_tbit(f) for f in fields)
+        tested = any(has_tbit(g) for g, l, h in gs)
         if carries or tested:
             r.ok("read_extcom: %s %s the transitivity bit" % (name, "stores" if carries else "is built only under a test of"))
         else:
